@@ -1,5 +1,5 @@
 import UtilModel.Lemmas.SemOrder
-import UtilModel.Lemmas.CodeTies
+import UtilModel.Lemmas.CodeTiesSem
 /-!
 # C14 — Version comparison is a coherent order and next/latest respect it
 
